@@ -79,3 +79,17 @@ Example C18_neutral_glyphs_take_part_in_the_closure :
   mem f_hyphen (classify (closure G) [] true [f] [hyphen]) = true /\ mem f_hyphen (closure G [f]) = false.
 Proof. exact neutral_glyphs_take_part_in_the_closure. Qed.
 Print Assumptions C18_neutral_glyphs_take_part_in_the_closure.
+
+(* ---- "left alone when the user's features define them", for a GDEF table written as several blocks (Fea/Tables.v) ---- *)
+From U2F Require Import Fea.GdefTodo Fea.Tables Fea.TablesProofs.
+
+Theorem C18_user_classes_in_any_block_are_left_alone : forall l b i hc hk,
+  In (TBlock GDEF b) l -> In (TClassDef i) b -> td_classes (gdef_todo_of (user_gdef l) hc hk) = false.
+Proof. exact classes_in_any_block_are_left_alone. Qed.
+Print Assumptions C18_user_classes_in_any_block_are_left_alone.
+
+Theorem C18_user_carets_in_any_block_are_left_alone : forall l b s hc hk,
+  In (TBlock GDEF b) l -> In (TStmt s) b -> (s = GCaretByPos \/ s = GCaretByIndex) ->
+  td_carets (gdef_todo_of (user_gdef l) hc hk) = false.
+Proof. exact carets_in_any_block_are_left_alone. Qed.
+Print Assumptions C18_user_carets_in_any_block_are_left_alone.
